@@ -102,6 +102,31 @@ def _near_angle_cases():
                "idle": [], "part": [0, 1], "form": "dict" if i % 3 else "single", "N": None, "seed": 0, "always_oracle": True}
 
 
+def _cut_order_cases():
+    """two cuts touching the same two partitions where the cut that comes LATER in the circuit acts on LOWER-index qubits and is independent of the
+    earlier one (the order of the placeholders' halves inside a subcircuit then differs from the order of the cut ids), with different bases;
+    separated call form (and the single-circuit form as a control).  Seed independent."""
+    import random
+    r = random.Random(20241002)
+    spec = [(("cx", []), ("rxx", [0.9])), (("cz", []), ("rzz", [0.7])), (("crx", [1.1]), ("cx", [])), (("ryy", [0.6]), ("cp", [0.8]))]
+    for i, ((g1, p1), (g2, p2)) in enumerate(spec):
+        pre = [{"name": "ry", "qubits": [q], "params": [0.5 + 0.2 * q + 0.05 * i]} for q in range(4)] + \
+              [{"name": "rx", "qubits": [q], "params": [0.9 - 0.15 * q]} for q in range(4)]
+        first = {"name": g1, "qubits": [2, 3]}
+        second = {"name": g2, "qubits": [0, 1]}
+        if p1:
+            first["params"] = p1
+        if p2:
+            second["params"] = p2
+        post = [{"name": "cx", "qubits": [0, 2]}, {"name": "cx", "qubits": [1, 3]}, {"name": "ry", "qubits": [0], "params": [0.4]},
+                {"name": "rx", "qubits": [3], "params": [-0.6]}]
+        for form in ("dict", "single"):
+            yield {"nq": 4, "qregs": [4], "instrs": pre + [first, second] + post, "labels": [0, 1, 0, 1],
+                   "pool_idx": r.sample(range(len(workflow.gen.LABEL_POOL)), 2),
+                   "obs": [{"l": "XIZI", "p": 0}, {"l": "IYIZ", "p": 0}, {"l": "ZZXX", "p": 0}, {"l": "YXZI", "p": 0}, {"l": "IIZZ", "p": 0}],
+                   "idle": [], "part": [0, 1, 0, 1], "form": form, "N": None, "seed": 0, "always_oracle": True}
+
+
 def _product_gate_cases():
     """the cut gate is an "arbitrary two-qubit unitary" WITHOUT non-local content: a UnitaryGate whose matrix is a tensor product of two
     one-qubit unitaries (Haar-random factors, a layer of rx/ry/rz rotations, with and without a global phase) - the degenerate corner
@@ -134,6 +159,7 @@ def _product_gate_cases():
 def cases(rng, tier):
     N = 60 if tier == "quick" else 700
     yield from (("roundtrip", p) for p in _near_angle_cases())
+    yield from (("roundtrip", p) for p in _cut_order_cases())
     yield from (("roundtrip", p) for p in _product_gate_cases())
     asym = [("cx", None), ("cy", None), ("ch", None), ("ecr", None), ("dcx", None), ("csx", None), ("crx", [0.8]), ("cry", [1.3]),
             ("crz", [2.1]), ("unitary", [5, 2]), ("rzx", [0.9])]
